@@ -262,6 +262,134 @@ def axi_bench(name, rmw=False, base=0, wdepth=4, rdepth=4, dw=32, aw=8, idw=2, s
     return b
 
 
+def axi_bytes_bench(name, rmw=False, base=0, wdepth=2, rdepth=2, dw=32, aw=7, idw=1, full_strobes=False):
+    """memory semantics at byte level: real bridge between a free AXI master (single-beat full-width accesses) and an in-order
+    memory stub that really stores ONE byte (symbolic word address and lane).  A read whose AR is accepted while no write to the
+    watched word is outstanding (AW accepted, B not yet received) and during which no such write is accepted must return the byte
+    most recently written under its strobe -- read-after-B visibility, strobes respected, RMW merge leaves other bytes intact"""
+    from litedram.frontend.axi import LiteDRAMAXIPort, LiteDRAMAXI2Native
+    from vlib import memstub
+    ashift = log2_int(dw // 8)
+    nb = dw // 8
+    axi = LiteDRAMAXIPort(data_width=dw, address_width=aw, id_width=idw)
+    port = LiteDRAMNativePort("both", aw - ashift, dw)
+
+    class Top(Module):
+        pass
+    top = Top()
+    top.submodules.dut = LiteDRAMAXI2Native(axi, port, w_buffer_depth=wdepth, r_buffer_depth=rdepth, base_address=base,
+                                            with_read_modify_write=rmw)
+    WA = Signal(aw - ashift, name_override="WA")
+    WL = Signal(max=nb, name_override="WL")
+    mem = Signal(8, name_override="mem_byte")
+    ref = Signal(8, name_override="ref_byte")
+    top.submodules.stub = stub = memstub.NativeMemStub(port, WA, WL, mem, depth=3, name="n")
+    inputs = dict(stub.inputs)
+    for ch, names in (("aw", ["valid", "addr", "id"]), ("ar", ["valid", "addr", "id"]), ("w", ["valid", "data", "strb"]), ("b", ["ready"]),
+                      ("r", ["ready"])):
+        for n in names:
+            inputs["%s_%s" % (ch, n)] = getattr(getattr(axi, ch), n)
+    top.comb += [axi.aw.len.eq(0), axi.ar.len.eq(0), axi.aw.size.eq(ashift), axi.ar.size.eq(ashift), axi.aw.burst.eq(1), axi.ar.burst.eq(1),
+                 axi.w.last.eq(1)]
+    assumes = {}
+    bads = {k: v for k, v in stub.bads.items() if k != "frontend_changes_or_drops_unaccepted_command"}
+    bad = _bad_adder(top, bads)
+
+    def asm(n, e):
+        s_ = Signal(name_override="asm_" + n)
+        top.comb += s_.eq(e)
+        assumes[n] = s_
+    for chn in ("aw", "ar"):
+        ch = getattr(axi, chn)
+        c = monitors.StreamContract(ch.valid, ch.ready, [ch.addr, ch.id])
+        top.submodules += c
+        asm("%s_stable_until_ready" % chn, c.ok)
+        asm("%s_aligned_inside_window" % chn, ~ch.valid | ((ch.addr[:ashift] == 0) & (ch.addr >= base)))
+    cw = monitors.StreamContract(axi.w.valid, axi.w.ready, [axi.w.data, axi.w.strb])
+    top.submodules += cw
+    asm("w_stable_until_ready", cw.ok)
+    if full_strobes:
+        asm("full_strobes", ~axi.w.valid | (axi.w.strb == 2**nb - 1))
+    aw_hs, ar_hs, w_hs, b_hs, r_hs = Signal(), Signal(), Signal(), Signal(), Signal()
+    top.comb += [aw_hs.eq(axi.aw.valid & axi.aw.ready), ar_hs.eq(axi.ar.valid & axi.ar.ready), w_hs.eq(axi.w.valid & axi.w.ready),
+                 b_hs.eq(axi.b.valid & axi.b.ready), r_hs.eq(axi.r.valid & axi.r.ready)]
+
+    def word_of(addr):
+        return ((addr - base) >> ashift)[:aw - ashift]
+    aw_hit = Signal()
+    ar_hit = Signal()
+    top.comb += [aw_hit.eq(word_of(axi.aw.addr) == WA), ar_hit.eq(word_of(axi.ar.addr) == WA)]
+    QN = 2
+    # writes: accepted AW whose W beat has not been sent yet (in order) / whose B has not been received yet
+    wq_hit = [Signal() for _ in range(QN)]
+    wq_lvl = Signal(max=QN + 1)         # AW accepted, W not yet accepted
+    out_w = Signal(max=QN + 2)          # AW accepted, B not yet received
+    out_w_hit = Signal(max=QN + 2)      # ... of which on the watched word
+    bq_hit = [Signal() for _ in range(QN + 1)]
+    for i in range(QN):
+        nxt = wq_hit[i + 1] if i + 1 < QN else Constant(0, 1)
+        top.sync += [If(w_hs, wq_hit[i].eq(nxt), If(aw_hs & (wq_lvl == i + 1), wq_hit[i].eq(aw_hit))
+                        ).Elif(aw_hs & (wq_lvl == i), wq_hit[i].eq(aw_hit))]
+    for i in range(QN + 1):
+        nxt = bq_hit[i + 1] if i + 1 < QN + 1 else Constant(0, 1)
+        top.sync += [If(b_hs, bq_hit[i].eq(nxt), If(aw_hs & (out_w == i + 1), bq_hit[i].eq(aw_hit))
+                        ).Elif(aw_hs & (out_w == i), bq_hit[i].eq(aw_hit))]
+    top.sync += [wq_lvl.eq(wq_lvl + aw_hs - w_hs), out_w.eq(out_w + aw_hs - b_hs),
+                 out_w_hit.eq(out_w_hit + (aw_hs & aw_hit) - (b_hs & bq_hit[0]))]
+    asm("w_beat_only_after_its_aw_was_accepted", ~axi.w.valid | (wq_lvl != 0))
+    asm("outstanding_writes_bounded", ~axi.aw.valid | ((out_w < QN) & (wq_lvl < QN)))
+    top.sync += If(w_hs & wq_hit[0] & memstub.bit_of(axi.w.strb, WL, nb), ref.eq(memstub.byte_of(axi.w.data, WL, nb)))
+    wr_hit = Signal()
+    top.comb += wr_hit.eq(w_hs & wq_hit[0] & memstub.bit_of(axi.w.strb, WL, nb))
+    # reads: accepted AR whose R beat has not been delivered yet
+    rq_chk = [Signal() for _ in range(QN)]
+    rq_exp = [Signal(8) for _ in range(QN)]
+    rq_lvl = Signal(max=QN + 1)
+    clean = Signal()
+    top.comb += clean.eq((out_w_hit == 0) & ~(aw_hs & aw_hit))
+    kill = Signal()                      # a write to the watched word is accepted: reads in flight may see either value
+    top.comb += kill.eq(aw_hs & aw_hit)
+    for i in range(QN):
+        nchk = rq_chk[i + 1] if i + 1 < QN else Constant(0, 1)
+        nexp = rq_exp[i + 1] if i + 1 < QN else Constant(0, 8)
+        top.sync += [If(r_hs, rq_chk[i].eq(nchk & ~kill), rq_exp[i].eq(nexp),
+                        If(ar_hs & (rq_lvl == i + 1), rq_chk[i].eq(ar_hit & clean), rq_exp[i].eq(ref))
+                        ).Else(If(kill, rq_chk[i].eq(0)),
+                               If(ar_hs & (rq_lvl == i), rq_chk[i].eq(ar_hit & clean), rq_exp[i].eq(ref)))]
+    top.sync += rq_lvl.eq(rq_lvl + ar_hs - r_hs)
+    asm("outstanding_reads_bounded", ~axi.ar.valid | (rq_lvl < QN))
+    got = memstub.byte_of(axi.r.data, WL, nb)
+    bad("read_after_write_response_returns_stale_or_corrupted_byte", r_hs & (rq_lvl != 0) & rq_chk[0] & (got != rq_exp[0]))
+    bad("read_beat_without_pending_ar", axi.r.valid & (rq_lvl == 0))
+    bad("write_response_without_pending_aw", axi.b.valid & (out_w == 0))
+    covers = {}
+    sw = monitors.Sticky(wr_hit)
+    top.submodules += sw
+    cv = Signal()
+    top.comb += cv.eq(r_hs & (rq_lvl != 0) & rq_chk[0] & sw.out)
+    covers["checked_read_of_watched_byte_after_a_write_to_it"] = cv
+    if not full_strobes:
+        # a write to the watched word that does not strobe the watched lane, followed by a checked read
+        sp = monitors.Sticky(w_hs & wq_hit[0] & ~memstub.bit_of(axi.w.strb, WL, nb))
+        top.submodules += sp
+        cv2 = Signal()
+        top.comb += cv2.eq(r_hs & (rq_lvl != 0) & rq_chk[0] & sp.out)
+        covers["checked_read_after_partial_write_that_skips_the_watched_lane"] = cv2
+    b = bmc.Bench(name, top, inputs, consts={"WA": WA, "WL": WL}, free_init={"mem_byte": mem, "ref_byte": ref}, init_assume=[mem == ref],
+                  assumes=assumes, bads=bads, covers=covers, info=dict(rmw=rmw, base=base, wdepth=wdepth, rdepth=rdepth, dw=dw, aw=aw))
+    b.watch = {"aw_hs": aw_hs, "w_hs": w_hs, "b_hs": b_hs, "ar_hs": ar_hs, "r_hs": r_hs, "awaddr": axi.aw.addr, "araddr": axi.ar.addr,
+               "wstrb": axi.w.strb, "wdata": axi.w.data, "rdata": axi.r.data, "n_v": port.cmd.valid, "n_r": port.cmd.ready,
+               "n_we": port.cmd.we, "n_a": port.cmd.addr, "mem": mem, "ref": ref, "chk": rq_chk[0], "exp": rq_exp[0]}
+    return b
+
+
+BYTES_CONFIGS = {
+    "bytes_plain_base32": (dict(base=32), 18, 24, "qt"),
+    "bytes_rmw_base32": (dict(rmw=True, base=32), 20, 26, "qt"),
+    "bytes_plain_dw16_d4": (dict(dw=16, wdepth=4, rdepth=4), 0, 24, "t"),
+    "bytes_rmw_dw16": (dict(rmw=True, dw=16), 0, 26, "t"),
+}
+
 CONFIGS = {
     "axi_d2_base64": (dict(wdepth=2, rdepth=2, base=64), 14, 20, "qt"),
     "axi_rmw_base64": (dict(rmw=True, base=64), 14, 20, "qt"),
@@ -270,6 +398,7 @@ CONFIGS = {
     "axi_rmw_d2": (dict(rmw=True, wdepth=2, rdepth=2), 0, 20, "t"),
 }
 BENCHES = {n: partial(axi_bench, n, **c[0]) for n, c in CONFIGS.items()}
+BENCHES.update({n: partial(axi_bytes_bench, n, **c[0]) for n, c in BYTES_CONFIGS.items()})
 
 
 def run(ctx):
@@ -278,8 +407,10 @@ def run(ctx):
                "with LAST on the final beat; at most 3 bursts outstanding per direction; B/R ready free")
     ctx.assume("native side: in-order memory stub with the real crossbar's pulse semantics, arbitrary stalls, latency >= 2, <= 3 "
                "commands queued; read data arbitrary")
-    ctx.assume("byte-level memory semantics (read-after-B visibility, RMW byte merge) are not decided by this check yet; address, "
-               "order, ID, LAST, response-after-data and write-data/strobe transport are")
+    ctx.assume("bytes_* benches (byte-level memory semantics): single-beat full-width INCR accesses, <= 2 writes without B and <= 2 reads "
+               "without R outstanding, memory stub that stores one byte at a symbolic word/lane; a read is checked when no write to the "
+               "watched word is outstanding at its AR handshake and none is accepted before its R beat (reads overlapping a write may "
+               "legally return either value and are not checked)")
     for n, (kw, kq, kt, tiers) in CONFIGS.items():
         if ctx.only and not ctx.only.search(n):
             continue
@@ -287,4 +418,11 @@ def run(ctx):
             ctx.add(n, kq, timeout=600, min_K=kq - 1, first_chunk=10, chunk=1, cover_required=False)
         elif ctx.tier == "thorough":
             ctx.add(n, kt, timeout=3300, min_K=(kq or 16) - 2, first_chunk=10, chunk=1, cover_required=False)
+    for n, (kw, kq, kt, tiers) in BYTES_CONFIGS.items():
+        if ctx.only and not ctx.only.search(n):
+            continue
+        if ctx.tier == "quick" and "q" in tiers:
+            ctx.add(n, kq, timeout=900, min_K=kq - 3, first_chunk=10, chunk=1)
+        elif ctx.tier == "thorough":
+            ctx.add(n, kt, timeout=1200, min_K=(kq or 18) - 3, first_chunk=10, chunk=1)
     ctx.run()
